@@ -6,7 +6,7 @@ use crate::wire::{self, Req};
 use crate::Ctx;
 use ark_bls12_381::{Fr, G1Projective};
 use ark_ec::{AffineRepr, CurveGroup};
-use ark_ff::{PrimeField, UniformRand, Zero};
+use ark_ff::{One, PrimeField, UniformRand, Zero};
 use ark_poly::DenseUVPolynomial;
 use std::ops::Mul;
 
@@ -71,6 +71,23 @@ pub fn run(ctx: &mut Ctx) {
         if acc != cl2 {
             ctx.rep.expect_fail(&id, "kzg10/commitment-add-assign", "`c_p += (b, &c_q)` is not commit(p + b q)",
                 format!("# scheme: kzg10\n# case {}\n# p={}\n# q={}\n# b={}\n", id, wire::fes(&p.coeffs), wire::fes(&q.coeffs), wire::fe(&b)));
+        }
+        // … also when the commitment added is the accumulator's own value, its negative, or the identity
+        for (what, other, factor) in [("itself", cp.clone(), Fr::one() + b), ("the identity", ark_poly_commit::kzg10::Commitment::<ark_bls12_381::Bls12_381>(ark_bls12_381::G1Affine::zero()), Fr::one())] {
+            let mut acc = cp.clone();
+            acc += (b, &other);
+            if acc.0 != cp.0.mul(factor).into_affine() {
+                ctx.rep.expect_fail(&id, "kzg10/commitment-add-assign", &format!("`c += (b, &c')` with c' = {} is not c + b c'", what),
+                    format!("# scheme: kzg10\n# case {}\n# p={}\n# b={}\n", id, wire::fes(&p.coeffs), wire::fe(&b)));
+            }
+        }
+        {
+            let mut acc = cp.clone();
+            acc += (-Fr::one(), &cp);
+            if !acc.0.is_zero() {
+                ctx.rep.expect_fail(&id, "kzg10/commitment-add-assign", "`c += (-1, &c)` is not the identity",
+                    format!("# scheme: kzg10\n# case {}\n# p={}\n", id, wire::fes(&p.coeffs)));
+            }
         }
         // zero polynomial -> identity; leading zeros irrelevant
         let (cz, _) = Kzg::commit(&powers, &UniPoly::from_coefficients_vec(vec![Fr::zero(); 3]), None, None).unwrap();
